@@ -194,8 +194,10 @@ class Gen:
             it['value_add'] = rng.choice([0.5, 1, -0.25, 2])
         if rng.random() < 0.25:
             it['quality_mul'] = rng.choice([0.5, 1, 0.75])
-        it['wo'] = {t: [rng.choice([0, 0.5, 1, 2, 3]), rng.choice([0, 0.5, 1, 1, 2]), rng.choice([0, 1, 2.5])]
-                    for t in ('x', 'y')}
+        if rng.random() < 0.85:
+            it['wo'] = {t: [rng.choice([0, 0.5, 1, 2, 3]), rng.choice([0, 0.5, 1, 1, 2]), rng.choice([0, 1, 2.5])]
+                        for t in ('x', 'y')}
+        # (else: the library's default work-order duration / capacity / cost of 0)
         return self.add(it)
 
     def mk_buffer(self, ups):
@@ -231,8 +233,9 @@ class Gen:
                 th = rng.choice([0.5, 1, 1.5, 2])
                 preds = [{'t': 'value_ge', 'th': th}, {'t': 'value_lt', 'th': th}]
             ends = []
+            sub = rng.random() < 0.3
             for pr in preds:
-                g = self.add({'id': self.nid('G'), 'kind': 'gate', 'up': list(ups), 'pred': pr})
+                g = self.add({'id': self.nid('G'), 'kind': 'gate', 'up': list(ups), 'pred': pr, 'subclass': sub})
                 ends.append(self.mk_simple([g]))
             if rng.random() < 0.5:
                 self.frontier.append(self.mk_simple(ends))          # merge again
